@@ -95,17 +95,27 @@ structure Env where
   /-- `http:` / `https:` checks: `(kind, url, currentRule)` ↦ outcome (Model/External). -/
   remote : Str → Str → Option Str → Outcome
 
+def rolesKey : Str := "roles".toList
+
+def JVal.isStr : JVal → Bool
+  | .str _ => true
+  | _ => false
+
+/-- `match.lower() == x.lower()` for one entry of `creds['roles']` -/
+def roleMatches (lower : Str → Str) (x : Str) : JVal → Bool
+  | .str s => lower s = lower x
+  | _ => false
+
 /-- `RoleCheck.__call__` -/
 def roleCheck (env : Env) (tgt : List (Str × JVal)) (creds : JVal) (m : Str) : Outcome :=
   match subst tgt m with
   | .keyError => .ret false
   | .unsupported => .raise .valueError
   | .ok x =>
-    match creds.get "roles".toList with
+    match creds.get rolesKey with
     | none => .ret false
     | some (.arr rs _) =>
-      if rs.all (fun r => match r with | .str _ => true | _ => false) then
-        .ret (rs.any fun r => match r with | .str s => env.lower s = env.lower x | _ => false)
+      if rs.all JVal.isStr then .ret (rs.any (roleMatches env.lower x))
       else .raise .attributeError      -- `x.lower()` on a non-string
     | some _ => .raise .typeError       -- iterating a non-list (outside the quantifier)
 
